@@ -19,7 +19,7 @@ RULE = ('cases = one streaming run over a generated CSV file: exhaustive (rows<=
         'corruption position and kind incl. none) and boundary-targeted files with row counts k*B+t, t in {0,1,1023,1024,1025,B-1}, '
         'B in {1,7,64,1024,1025,1500,4096}, subsampling in {1,2,3,7,10}, malformed rows (short, long, empty, stray quote; quoted commas '
         'as valid rows) at the first/last position of a batch, just before EOF and in runs; plain and .gz input; 3-6 columns; library '
-        'level (estimate_importances_minibatches) and task level (outrank_task_conduct_ranking -> pairwise_ranks.tsv). distinct = (rows, '
+        'level (estimate_importances_minibatches), task level (outrank_task_conduct_ranking) and command-line level (outrank.__main__.main) -> pairwise_ranks.tsv. distinct = (rows, '
         'B, subsampling, #invalid, invalid positions, level); non-trivial = at least 2 batches, or a tail decision within +-1 of 1024.')
 REQUIRED = {'batches=model': 50, 'median-aggregation': 50, 'checkpoint-after-each-batch': 50, 'invalid-count': 20, 'tsv-sorted-ascending': 2, 'tail-rule': 4}
 EXHAUSTIVE_NOTE = {'quick': 'rows<=12 x batch<=5 x subsampling<=3 x every single corrupted row position x 3 corruption kinds',
@@ -194,7 +194,12 @@ def make_rows(nprng, rng, n, ncols):
         if c and rng.random() < 0.5:
             v = (v + base) % card
         cols.append(v)
-    return [['v%d' % cols[c][i] for c in range(ncols)] for i in range(n)]
+    rows = [['v%d' % cols[c][i] for c in range(ncols)] for i in range(n)]
+    # missing values are empty cells - also in the first and in the last column (a trailing delimiter in the file)
+    for r in rows:
+        if rng.random() < 0.25:
+            r[rng.choice([0, ncols - 1, rng.randrange(ncols)])] = ''
+    return rows
 
 
 def render(header, rows, corrupt):
@@ -321,7 +326,7 @@ def shard_task(sh, part):
     """End to end: pairwise_ranks.tsv = ascending list of the per-pair medians."""
     import outrank.task_ranking as tr
     nprng, rng = sh.nprng('task', part), sh.rng('task', part)
-    for run in range(2 if sh.tier == 'quick' else 5):
+    for run in range(4 if sh.tier == 'quick' else 8):
         cr = pipe.fresh_core_ranking()
         cwd = os.getcwd()
         B = rng.choice([40, 64, 1030])
@@ -340,12 +345,20 @@ def shard_task(sh, part):
             f.write(text)
         out_dir = os.path.join(cwd, 'out-%d' % run)
         annotate = rng.choice(['True', 'False'])
-        args = pipe.make_args(data_path=dpath, output_folder=out_dir, minibatch_size=B, subsampling=sub, heuristic=rng.choice(['MI-numba-randomized', 'max-value-coverage']),
+        args = pipe.make_args(data_path=dpath, output_folder=out_dir, minibatch_size=B, subsampling=sub, heuristic=rng.choice(['MI-numba-randomized', 'max-value-coverage', 'correlation-Pearson']),
                               target_ranking_only=rng.choice(['True', 'False']), include_cardinality_in_feature_names=annotate, combination_number_upper_bound=10 ** 6)
         rec = Recorder(cr, cwd)
         tr.Pool = lambda n: pipe.SyncPool()
         tr.estimate_importances_minibatches = cr.estimate_importances_minibatches
-        ok, _ = sh.call('tsv-sorted-ascending', 'outrank_task_conduct_ranking', tr.outrank_task_conduct_ranking, args)
+        if run % 2:
+            # through the command-line entry point (argument parsing and task dispatch included)
+            flags = {'task': 'ranking', 'data_path': dpath, 'data_source': 'csv-raw', 'output_folder': out_dir, 'minibatch_size': B, 'subsampling': sub, 'heuristic': args.heuristic,
+                     'target_ranking_only': args.target_ranking_only, 'include_cardinality_in_feature_names': annotate, 'combination_number_upper_bound': 10 ** 6,
+                     'disable_tqdm': 'True', 'num_threads': 1}
+            ok, _ = sh.call('tsv-sorted-ascending', 'outrank.__main__.main', pipe.run_cli, flags)
+            sh.classes['task/via-cli-main'] += 1
+        else:
+            ok, _ = sh.call('tsv-sorted-ascending', 'outrank_task_conduct_ranking', tr.outrank_task_conduct_ranking, args)
         if not ok:
             continue
         mb, remaining, tail_used, invalid = model_batches(text, ncols, B, sub)
